@@ -192,6 +192,9 @@ func (eng *Engine) addContractFile(cf *ContractFile, external bool) {
 func (eng *Engine) typesPkg(short string) *types.Package { return eng.byShort[short] }
 
 func (eng *Engine) macro(pkg, name string) *Macro {
+	if i := strings.Index(name, "."); i > 0 {
+		return eng.macros[name]
+	}
 	if m, ok := eng.macros[pkg+"."+name]; ok {
 		return m
 	}
@@ -212,6 +215,9 @@ func (eng *Engine) macro(pkg, name string) *Macro {
 }
 
 func (eng *Engine) ghost(pkg, name string) *GhostFunc {
+	if i := strings.Index(name, "."); i > 0 {
+		return eng.ghosts[name]
+	}
 	if g, ok := eng.ghosts[pkg+"."+name]; ok {
 		return g
 	}
